@@ -204,6 +204,15 @@ func cmdCheck(args []string) int {
 	// second chance, without contention: an obligation that only timed out (no model) while many solver processes were
 	// racing is retried alone with twice the budget (at most four obligations per run) before it is reported.  Never applied to `sat` answers.
 	retried := 0
+	undecided := 0
+	for _, o := range run.obls {
+		if !o.Cover && o.Result != nil && o.Result.Status != "unsat" && o.Result.Status != "sat" && o.Goal != "false" && o.Goal != "true" && !v.knownClause[stripRet(o.Name)] {
+			undecided++
+		}
+	}
+	if undecided > 8 {
+		retried = 1 << 30 // many obligations at once are a broken function, not solver noise: no second chance needed
+	}
 	for i, o := range run.obls {
 		if o.Cover || o.Result == nil || o.Result.Status == "unsat" || o.Result.Status == "sat" || o.Goal == "false" || o.Goal == "true" || v.knownClause[stripRet(o.Name)] {
 			continue
